@@ -191,6 +191,23 @@ func (x *X) OnHang(key, what string) { x.mu.Lock(); x.hangKey, x.hangWhat = key,
 
 func (x *X) Failed() bool { x.mu.Lock(); defer x.mu.Unlock(); return len(x.fails) > 0 }
 
+// NewX makes a stand-alone execution that replays prefix (for helper processes that enumerate a sub-space themselves).
+func NewX(prefix []int) *X {
+	return &X{prefix: prefix, w: &worker{distinct: map[uint64]struct{}{}, rerun: map[string]bool{}}}
+}
+
+// Arity returns the number of alternatives at each choice point of this execution.
+func (x *X) Arity() []int { x.mu.Lock(); defer x.mu.Unlock(); return append([]int{}, x.arity...) }
+
+// Fails returns the failures recorded so far.
+func (x *X) Fails() []Fail { x.mu.Lock(); defer x.mu.Unlock(); return append([]Fail{}, x.fails...) }
+
+// OutcomeClass returns the outcome class set by the execution.
+func (x *X) OutcomeClass() string { x.mu.Lock(); defer x.mu.Unlock(); return x.outcome }
+
+// Evals returns the evaluation count announced through Count.
+func (x *X) Evals() int64 { x.mu.Lock(); defer x.mu.Unlock(); return x.evals }
+
 // Spec describes one check.
 type Spec struct {
 	ID          string
